@@ -61,7 +61,7 @@ func checkC14() int {
 	}
 	// wide programs: parallel compositions of 12 programs (30..60 top-level processes); their
 	// variants permute the declarations, so which processes are declared last changes
-	cases = append(cases, wideCases(c, c.pick(10, 80), 12, 35, nil)...)
+	cases = append(cases, wideCases(c, c.pick(20, 80), 12, 35, nil)...)
 	type variant struct {
 		base   *progCase
 		kind   string
